@@ -10,56 +10,12 @@ import copy
 from pyvc import flow, load, rel
 from pyvc.run import bounded, not_covered, structural
 
-# preconditions from the property's quantifier (JSON-like data, built-in filters/loaders)
-FACTS = {
-    "hasattr(func, 'filter_async')": False,           # P1: no built-in/extra filter defines filter_async
-    "hasattr(obj, '__getitem_async__')": False,       # P1: render data is JSON-like
-}
-FACTS_SYNC = dict(FACTS)
-FACTS_SYNC["not isinstance(uptodate, bool)"] = False   # P3: sync uptodate callables return bool
-FACTS_ASYNC = dict(FACTS)
-FACTS_ASYNC["assert isinstance(macro, Macro)"] = True  # P2: tag_namespace['macros'] holds Macro objects
-
-
-def elsif_lemma(sync_fn, async_fn):
-    """A-elsif: after `alternative.expression.evaluate*(context)` was true, rendering the
-    ConditionalBlockNode `alternative` is rendering `alternative.block` (condition evaluation
-    is pure; the disabled-tag check on the alternative's token is subsumed by its first node).
-    Shape of ConditionalBlockNode.render_to_output* and Node.render* is checked below."""
-    class Sub(ast.NodeTransformer):
-        def visit_Call(self, n):
-            self.generic_visit(n)
-            if isinstance(n.func, ast.Attribute) and n.func.attr in ("render", "render_async") and ast.unparse(n.func.value) == "alternative":
-                n.func = ast.Attribute(value=ast.Attribute(value=n.func.value, attr="block", ctx=ast.Load()), attr=n.func.attr, ctx=ast.Load())
-            return n
-    return sync_fn, Sub().visit(copy.deepcopy(async_fn))
-
-
-HOOKS = {("liquid.builtin.tags.if_tag", "IfNode.render_to_output"): (elsif_lemma, "A-elsif"),
-         ("liquid.builtin.tags.unless_tag", "UnlessNode.render_to_output"): (elsif_lemma, "A-elsif")}
+from contracts.twins import pair_obligations
 
 
 @structural("C01", "pairs")
 def pairs():
-    sigs = rel.signatures()
-    obs = []
-    prs = rel.find_pairs()
-    t1 = 0
-    for m, qual, s, a in prs:
-        name = qual + s.name
-        hook = HOOKS.get((m, name))
-        extra = []
-        s2, a2 = s, a
-        if hook is not None:
-            s2, a2 = hook[0](s, a)
-            extra = [hook[1]]
-        same, tier, used, diff = rel.compare(s2, a2, FACTS_SYNC, FACTS_ASYNC, sigs)
-        if tier.startswith("tier1"):
-            t1 += 1
-        obs.append(flow.ob(f"rel:{m}:{name}", same, (tier + ("; rules: " + "; ".join(used + extra) if used or extra else "")) if same else "\n".join(diff)[:3000],
-                           replay_schema="code", replay_extra={"code": REPLAY, "pair": f"{m}:{name}"}))
-    obs.append(flow.ob("pairs-found", len(prs) >= 20, f"{len(prs)} sync/async pairs, {t1} by await-erasure congruence alone"))
-    return obs
+    return pair_obligations()
 
 
 @structural("C01", "preconditions")
